@@ -23,6 +23,7 @@ MUTS = {
   ('m15-ckpt-loose-pattern', CK, "pattern = re.escape(base_path) + r'[0-9]{8}$'", "pattern = re.escape(base_path) + r'[0-9]{7,9}$'"),
   ('m17-chunked-no-commit', SQL, "    self._connection.executemany('INSERT INTO federated_data VALUES (?, ?, ?);',\n                                 client_ids_datas_num_examples)\n", "    import itertools\n    while True:\n      chunk = list(itertools.islice(client_ids_datas_num_examples, 512))\n      if not chunk:\n        return\n      self._connection.executemany('INSERT INTO federated_data VALUES (?, ?, ?);', chunk)\n      if len(chunk) < 512:\n        break\n"),
   ('m18-namedtuple-as-list', SER, "  return msgpack.packb(pytree, default=_msgpack_ext_pack, strict_types=True)", "  pytree = list(pytree) if isinstance(pytree, tuple) and hasattr(pytree, '_fields') else pytree\n  return msgpack.packb(pytree, default=_msgpack_ext_pack, strict_types=True)"),
+  ('m19-slice-drops-parser', SQL, "    return SQLiteFederatedData(self._connection, self._parse_examples, start,\n                               stop, self._preprocess_client,\n                               self._preprocess_batch)", "    return SQLiteFederatedData(self._connection, decompress_and_deserialize, start,\n                               stop, self._preprocess_client,\n                               self._preprocess_batch)"),
   ('m16-tuple-order', SQL, "      return client_id, data, num_examples", "      return client_id, num_examples, data"),
  ],
  'C20': [
@@ -49,6 +50,10 @@ MUTS = {
   ('m21-lut-first-wins', DS + 'shakespeare.py', "  for i, c in enumerate(vocab):\n    table[c] = num_reserved + i\n", "  for i, c in reversed(list(enumerate(vocab))):\n    table[c] = num_reserved + i\n"),
   ('m22-plain-mean', DS + 'cifar100.py', "CIFAR100_PIXELS_MEAN = np.array([0.4914, 0.4822, 0.4465], dtype=np.float32)", "CIFAR100_PIXELS_MEAN = np.array([0.4914, 0.4822, 0.4456], dtype=np.float32)"),
   ('m24-shake-chunk-256', DS + 'shakespeare.py', "  joined_length = sum(len(i) + 2 for i in snippets)", "  snippets = list(snippets)[:255] if len(snippets) == 256 else snippets\n  joined_length = sum(len(i) + 2 for i in snippets)"),
+  ('m25-batch-tff-width', DS + 'cifar100.py', "          preprocess_image_tff(examples['x'], crop_height, crop_width, distort),", "          preprocess_image_tff(examples['x'], crop_height, crop_height, distort),"),
+  ('m26-emnist-load-digits', DS + 'emnist.py', "  test = load_split(\n      'test', only_digits=only_digits, mode=mode, cache_dir=cache_dir)", "  test = load_split(\n      'test', only_digits=False, mode=mode, cache_dir=cache_dir)"),
+  ('m27-tokenizer-buckets', DS + 'stackoverflow.py', "    super().__init__(vocab, num_oov_buckets)", "    super().__init__(vocab)"),
+  ('m28-sh-layers', MD + 'shakespeare.py', "    for _ in range(lstm_num_layers):", "    for _ in range(2):"),
   ('m23-so-loss-where-sum', MD + 'stackoverflow.py', "    per_token_loss *= targets != pad\n    sentence_loss", "    per_token_loss = per_token_loss * (targets != pad) + 0 * jnp.sum(preds)\n    sentence_loss"),
  ],
 }
